@@ -153,8 +153,11 @@ package asset
 
 //@ func interface Repository.GetSince
 //@ attr refinement = asset.InMemoryRepository, asset.FileSystemRepository
-//@ ensures[C10,C12] result1 == nil ==> has(view(self), p0) && consumed(result0) == 0 && closed(result0) && len(result0) == cntsince(view(self)[p0], p1, len(view(self)[p0]))
-//@ ensures[C10,C12] result1 == nil ==> (forall k :: 0 <= k && k < len(view(self)[p0]) ==> (view(self)[p0][k].Date >= p1 ==> result0[cntsince(view(self)[p0], p1, k)] == view(self)[p0][k]))
+// ghost: gcnt(self, "ngetok") counts the reads that succeeded (definitional; lets a caller say what it did with each)
+//@ attr counts = ngetok
+//@ ensures "ghost-counter" gcnt(self, "ngetok") == old(gcnt(self, "ngetok")) + (result1 == nil ? 1 : 0)
+//@ ensures[C10,C12,C13] result1 == nil ==> has(view(self), p0) && consumed(result0) == 0 && closed(result0) && len(result0) == cntsince(view(self)[p0], p1, len(view(self)[p0]))
+//@ ensures[C10,C12,C13] result1 == nil ==> (forall k :: 0 <= k && k < len(view(self)[p0]) ==> (view(self)[p0][k].Date >= p1 ==> result0[cntsince(view(self)[p0], p1, k)] == view(self)[p0][k]))
 //@ ensures[C10,C12] result1 != nil ==> len(result0) == 0
 // data assumption: repositories hold valid price data (positive closes); the outcome simulation relies on it
 //@ ensures "data-assumption" result1 == nil ==> (forall k :: 0 <= k && k < len(result0) ==> result0[k].Close > 0)
